@@ -188,6 +188,11 @@ var Features = []Feature{
 		t.Cols = append(t.Cols, Col{Name: "1e3", Type: "integer"}, Col{Name: "1000", Type: "integer"})
 		t.Idx = append(t.Idx, Idx{Name: "idx_1e3", Parts: []Part{{Col: "1e3"}}})
 	}},
+	// a default expression written with parentheses of its own.
+	{Name: "col_y1_default_expr_parenthesised", Apply: func(d *DB) {
+		t := d.Table("t")
+		t.Cols = append(t.Cols, Col{Name: "y1", Type: "integer", Default: "(1 + 1)", DefExpr: true})
+	}},
 	// a default expression whose text holds the template markers of HCL.
 	{Name: "col_x1_default_expr_with_template_markers", Apply: func(d *DB) {
 		t := d.Table("t")
